@@ -556,4 +556,4 @@ func mustJSON(v any) string {
 
 var propMatch = vkit.NewProp([]string{P}, "c14match", genMatch, runMatch)
 
-func TestC14MatchFields(t *testing.T) { propMatch.Check(t) }
+func TestC14MatchFields(t *testing.T) { propMatch.CrashFile = true; propMatch.Check(t) }
